@@ -88,6 +88,7 @@ const (
 	// per-input watchdogs
 	normalWatchdog = 6 * time.Second
 	bigWatchdog    = 60 * time.Second
+	retryWatchdog  = 20 * time.Second
 	// after this many hangs / memory aborts / crashes of the child the remaining inputs are skipped:
 	// the run already has its failing inputs and must end in bounded time
 	maxAbnormal = 8
@@ -217,6 +218,19 @@ func runAll(inputs []input, deadline time.Time) []result {
 			}
 		}
 		res[i], ch = ask(ch, inp, normalWatchdog)
+		if ch == nil && res[i].Out == "hang" {
+			// a loaded machine can make an innocent decode miss the short watchdog: a hang counts
+			// only if it repeats in a fresh child under a longer one
+			retry, err := startChild(normalAS)
+			if err == nil {
+				var alive *child
+				res[i], alive = ask(retry, inp, retryWatchdog)
+				if alive != nil {
+					alive.kill()
+					continue
+				}
+			}
+		}
 		if ch == nil {
 			abnormal++
 		}
